@@ -89,4 +89,9 @@ theorem code_nodeids_fresh : Generated.connNodeIdsFresh = true := by decide
 /-- non-vacuity -/
 example : valid [5, 7, 9] 2 (place 3 2 [[7, 5, 9], [9, 7, 5]]) = true := by decide
 
+
+/-- the placement that is proposed is the one `Create` computes from the members of that moment,
+whatever the request message carries in its id and partitions fields (regenerated) -/
+theorem create_computes_id_and_placement : Generated.createComputesIdAndPlacement = true := by decide
+
 end Anndb.C16
